@@ -183,30 +183,30 @@ CO_ERR CONmtHbConsActivate(CO_HBCONS *hbc, uint16_t time, uint8_t nodeid)
         act  = act->Next;
     }
 
-    if (found != 0) {
-        if (time > 0) {
-            result = CO_ERR_OBJ_INCOMPATIBLE;
-        } else {
+    if ((found != 0) && (time > 0)) {
+        result = CO_ERR_OBJ_INCOMPATIBLE;
+    } else {
+        /* an active entry leaves the chain and stops its monitor timer */
+        prev = 0;
+        act  = nmt->HbCons;
+        while ((act != 0) && (act != hbc)) {
+            prev = act;
+            act  = act->Next;
+        }
+        if (act != 0) {
+            if (prev == 0) {
+                nmt->HbCons = hbc->Next;
+            } else {
+                prev->Next  = hbc->Next;
+            }
             if (hbc->Tmr >= 0) {
                 err = COTmrDelete(&nmt->Node->Tmr, hbc->Tmr);
                 if (err < 0) {
                     result = CO_ERR_TMR_DELETE;
                 }
             }
-            hbc->Time   = time;
-            hbc->NodeId = nodeid;
-            hbc->Tmr    = -1;
-            hbc->Event  = 0;
-            hbc->State  = CO_INVALID;
-            hbc->Node   = nmt->Node;
-            if (prev == 0) {
-                nmt->HbCons = hbc->Next;
-            } else {
-                prev->Next  = hbc->Next;
-            }
-            hbc->Next   = 0;
         }
-    } else {
+
         hbc->Time   = time;
         hbc->NodeId = nodeid;
         hbc->Tmr    = -1;
